@@ -76,28 +76,20 @@ def build_inputs(n, kind):
 
 def cases(tier, seed):
     nmax = 24 if tier == "quick" else 48
-    if tier == "quick":
-        variants = [
-            ("grid", False, "none"), ("grid", True, "const"),
-            ("grid", 3, "farmer"), ("cases", False, "const"),
-            ("cases", True, "farmer"), ("cases", 3, "none"),
-            ("mix", False, "farmer"), ("mix", True, "none"),
-            ("mix", 3, "const"), ("mix2", False, "none"),
-            ("mix2", True, "const"), ("grid", 3, "const0"),
-            ("cases", False, "farmer0"), ("grid", False, "farmer-override"),
-            ("cases", False, "farmer-override"),
-        ]
-    else:
-        variants = list(itertools.product(
-            ("grid", "cases", "mix", "mix2"), (False, True, 3),
-            ("none", "const", "farmer", "farmer-override", "const0",
-             "farmer0")))
+    variants = list(itertools.product(
+        ("grid", "cases", "mix", "mix2"), (False, True, 3),
+        ("none", "const", "farmer", "farmer-override", "const0", "farmer0")))
     for n in range(1, nmax + 1):
         reqs = [("batchsize", s) for s in range(1, n + 2)]
         reqs += [("num_batches", k) for k in range(1, n + 3)]
         reqs += [("default", None)]
         for (mode, req), (kind, shuffle, const) in itertools.product(
                 reqs, variants):
+            # (quick: a fifth of the secondary combinations per request,
+            # chosen by a hash so that every pair of values meets)
+            if tier == "quick" and core.pick(
+                    [n, mode, req, kind, shuffle, const], 5):
+                continue
             yield {"n": n, "mode": mode, "req": req, "kind": kind,
                    "shuffle": shuffle, "const": const,
                    "resow": const.startswith("farmer")
